@@ -28,7 +28,7 @@ variable [SF ℝ]
 /-- Gamma: cdf + sf = 1 at every x -/
 theorem gamma_cdf_add_sf_rel (S : GammaSpec) (d : Gamma ℝ) (hs : 0 < d.f_shape) (hr : 0 < d.f_rate)
     (x : ℝ) : Gamma.cdf d x + Gamma.sf d x = 1 := by
-  rw [gamma_cdf_real, gamma_sf_real]
+  rw [gamma_cdf_real _ _ hr.ne', gamma_sf_real _ _ hr.ne']
   split_ifs with h0
   · norm_num
   · rw [S.ur_eq _ _ hs (mul_pos (not_le.mp h0) hr)]; ring
@@ -36,7 +36,7 @@ theorem gamma_cdf_add_sf_rel (S : GammaSpec) (d : Gamma ℝ) (hs : 0 < d.f_shape
 /-- Gamma: 0 ≤ sf ≤ 1 -/
 theorem gamma_sf_range_rel (S : GammaSpec) (d : Gamma ℝ) (hs : 0 < d.f_shape) (hr : 0 < d.f_rate)
     (x : ℝ) : 0 ≤ Gamma.sf d x ∧ Gamma.sf d x ≤ 1 := by
-  rw [gamma_sf_real]
+  rw [gamma_sf_real _ _ hr.ne']
   split_ifs with h0
   · norm_num
   · have hx := mul_pos (not_le.mp h0) hr
@@ -47,7 +47,7 @@ theorem gamma_sf_range_rel (S : GammaSpec) (d : Gamma ℝ) (hs : 0 < d.f_shape) 
 /-- Gamma: sf never increases -/
 theorem gamma_sf_antitone_rel (S : GammaSpec) (d : Gamma ℝ) (hs : 0 < d.f_shape)
     (hr : 0 < d.f_rate) (x y : ℝ) (hxy : x ≤ y) : Gamma.sf d y ≤ Gamma.sf d x := by
-  rw [gamma_sf_real, gamma_sf_real]
+  rw [gamma_sf_real _ _ hr.ne', gamma_sf_real _ _ hr.ne']
   split_ifs with hy hx hx
   · exact le_rfl
   · exact absurd (hxy.trans hy) hx
